@@ -108,7 +108,11 @@ def make_interp(repo):
 def exact_coincidence(tr_):
     """a path on which two different values are exactly equal (a new value compared with `==` against a remembered one): there nothing has moved, so nothing can be stale;
     the histories that send the same value again (RESEND) cover exact-equality short-cuts"""
-    return any(isinstance(v_, X.Node) and v_.op == 'cmp' and v_.val in ('==', '!=') and PathExplorer.arm(v_, o_)[0] == 'equality' for (v_, _w, _t, o_) in tr_)
+    def two_values(v_):
+        # x == y between two non-constant values, neither of them a mask (np.any(mask) is `mask != 0`: an open condition, not a coincidence)
+        a_, b_ = v_.args
+        return a_.op not in ('const', 'cmp') and b_.op not in ('const', 'cmp')
+    return any(isinstance(v_, X.Node) and v_.op == 'cmp' and v_.val in ('==', '!=') and two_values(v_) and PathExplorer.arm(v_, o_)[0] == 'equality' for (v_, _w, _t, o_) in tr_)
 
 
 def explore_history(history):
